@@ -4,7 +4,7 @@ from . import wl_roundtrip
 PROPERTY = "C12"
 LEVEL = "exploration"
 SCENARIOS = {"faults": 6, "nofault": 3, "nofault-nooversize": 1, "fast-master": 2, "long-history": 1}
-TIERS = {"quick": {"runs": 6000, "chunk": 40}, "thorough": {"runs": 50000000, "wall_s": 600, "chunk": 200, "recheck": 16}}
+TIERS = {"quick": {"runs": 6000, "chunk": 40, "chunk_wall": 1200}, "thorough": {"runs": 50000000, "wall_s": 600, "chunk": 40, "chunk_wall": 1800, "recheck": 16}}
 RULE = ("one run = 1-8 concurrent client tasks issuing 1-30 EtherCat.roundtrip calls "
         "(sizes 0..1472 and beyond, bursts in one loop iteration, short wait_for "
         "timeouts, client cancellation) against plain-memory terminals on the simulated "
